@@ -89,6 +89,17 @@ Init ==
              <<"use", "", 1, FALSE, <<"b", A(5), NoL>>,
                <<IF us = "attr" THEN <<<<"stroke", "teal">>>> ELSE <<>>, <<>>, IF uf = "inline" THEN <<<<"fill", "maroon">>>> ELSE <<>>>>>>, E0, E0>>,
            <<>>, "black")
+  \* one definition painted with currentColor, instantiated where different colours are in force (the colour is resolved per instance)
+  \/ \E which \in {"fill", "stroke"}, c1 \in {"red", "none"}, c3 \in {"lime", "none"}, cc \in {"black", "teal"}, defcol \in {"none", "yellow"} :
+        Mk("usecurrent",
+           <<Root, <<"defs", "", 0, FALSE, <<>>, IF defcol = "none" THEN NoPaint ELSE <<<<<<"color", defcol>>>>, <<>>, <<>>>>>>,
+             <<"rect", "b", 0, FALSE, RectGeo, <<<<<<which, "currentColor">>>>, <<>>, <<>>>>>>, E0,
+             <<"g", "", 0, FALSE, <<>>, IF c1 = "none" THEN NoPaint ELSE <<<<<<"color", c1>>>>, <<>>, <<>>>>>>,
+             <<"use", "", 0, FALSE, <<"b", A(5), NoL>>, NoPaint>>, E0,
+             <<"g", "", 0, FALSE, <<>>, <<<<<<"color", "blue">>>>, <<>>, <<>>>>>>,
+             <<"use", "", 0, FALSE, <<"b", A(50), NoL>>, NoPaint>>, E0,
+             <<"use", "", 0, FALSE, <<"b", A(90), NoL>>, IF c3 = "none" THEN NoPaint ELSE <<<<<<"color", c3>>>>, <<>>, <<>>>>>>, E0>>,
+           <<>>, cc)
   \/ \E own \in {"none", "attr", "inline", "rule"}, par \in {"none", "attr"}, cc \in {"black", "teal"}, which \in {"fill", "stroke"} :
         Mk("current",
            <<Root, <<"g", "", 0, FALSE, <<>>, <<IF par = "attr" THEN <<<<"color", "lime">>>> ELSE <<>>, <<>>, <<>>>>>>,
@@ -160,6 +171,7 @@ GenDocs == JsonDeserialize(IOEnv.DOCS_FILE)
 InitGen == \E i \in 1..Len(GenDocs) : MkD("generated", GenDocs[i].doc, GenDocs[i].sheet, GenDocs[i].callerColor)
 
 \* ---- laws of the specification ---------------------------------------------
-OneShape == kind # "display" => Len(out) = 1
+OneShape == kind \notin {"display", "usecurrent"} => Len(out) = 1
+UseCurrentLaw == kind = "usecurrent" => Len(out) = 3     \* one instance per use, each with the colour in force at its use
 DisplayLaw == kind = "display" => (Len(out) \in {1, 2} /\ out[Len(out)][5] = "b")
 =============================================================================
